@@ -8,7 +8,7 @@ LEVEL = "model_checking"
 def corrupt(rec):
     r = json.loads(json.dumps(rec))
     r["id"] = -1
-    r["facts"]["minlen"] = r["maxlen"] + 1
+    r["facts"]["minlen"] = 10 ** 6      # false at every match, whatever the pattern's real minimum is
     return r
 
 
